@@ -521,9 +521,11 @@ class Watch:
         if not self.unobservable and self.counter >= self.n_steps:
             # drawing is not yet a step: the violation is a PROPOSAL evaluated beyond the budget (see on_chi2)
             self.overdue = True
-        if self.iterations > 400000:
-            ctx.violate("C09", "does-not-stop", f"the search is still running after {self.iterations} iterations "
-                                                f"(budget {self.n_steps} consecutive steps without improvement)")
+        if self.iterations > 200000:
+            # a search that keeps finding new minima (tiny steps, a long way to go) may legitimately run on; by the model its
+            # counter is still below the budget (otherwise the check above / in on_chi2 has fired).  The harness stops watching.
+            ctx.probe("search_longer_than_the_harness_follows")
+            self.unobservable = True
             raise ExtraDraw()
         self.iterations += 1
         ctx.steps += 1
